@@ -44,10 +44,10 @@ ALIAS = {            # (x1, x2, out) as indices into the three allocated element
 def lit(carrier, v):
     """Coq literal of one entry; NaN -> None in the poisoned carriers."""
     if carrier in ('real', 'int'):
-        return C.q(v)
+        return _q(v)
     if carrier == 'cx':
         v = complex(v)
-        return '(%s, %s)' % (C.q(v.real), C.q(v.imag))
+        return '(%s, %s)' % (_q(v.real), _q(v.imag))
     if carrier == 'nan':
         v = float(v)
         return 'None' if v != v else '(Some %s)' % C.q(v)
@@ -57,6 +57,16 @@ def lit(carrier, v):
             return 'None'
         return '(Some (%s, %s))' % (C.q(v.real), C.q(v.imag))
     raise ValueError(carrier)
+
+
+SENTINEL = 999999937      # stands for a non-finite entry where the carrier has no NaN: never matches the model
+
+
+def _q(v):
+    try:
+        return C.q(v)
+    except (ValueError, OverflowError):
+        return C.q(SENTINEL)
 
 
 def lits(carrier, arr):
